@@ -890,11 +890,18 @@ class Server:
         :param response_queue:
         :type response_queue: :py:class:`asyncio.Queue`
         """
-        while True:
-            args = await response_queue.get()
-            try:
-                await self.write_response(stream, *args)
-            finally:
+        try:
+            while True:
+                args = await response_queue.get()
+                try:
+                    await self.write_response(stream, *args)
+                finally:
+                    response_queue.task_done()
+        finally:
+            # nobody is going to send what is still queued: do not let
+            # the dispatcher wait for it
+            while not response_queue.empty():
+                response_queue.get_nowait()
                 response_queue.task_done()
 
     async def dispatcher(self, reader, writer):
@@ -970,7 +977,15 @@ class Server:
                     # this is "command" result
                     if isinstance(result, bool):
                         if not result:
-                            await response_queue.join()
+                            # a peer which does not read the last replies
+                            # must not hold the session for ever
+                            try:
+                                await asyncio.wait_for(
+                                    response_queue.join(),
+                                    self.idle_timeout,
+                                )
+                            except asyncio.TimeoutError:
+                                pass
                             return
                     # this is parse_command result
                     elif isinstance(result, tuple):
